@@ -27,8 +27,19 @@ def _cond_blocks_dominating(fn, pos):
 
 def _mentions_membership(cnd, src):
     for y, _ in walk(cnd):
-        if y.get("k") == "call" and y.get("fn") in ("tpt_get_tp", "tpt_get_current"):
+        if y.get("k") == "call" and y.get("fn") in ("tpt_get_tp", "tpt_get_current", "tp_thread_get"):
             return True
+    return False
+
+
+def _slot_identity(cnd, src):
+    """`tp_thread_get(tp, ...) == src`: src is one of the pool's real thread slots (not the virtual thread, not foreign)"""
+    for y, _ in walk(cnd):
+        if y.get("k") == "bin" and y["op"] in ("==", "!="):
+            a, b = core.strip_casts(y["x"]), core.strip_casts(y["y"])
+            for c_, o in ((a, b), (b, a)):
+                if c_.get("k") == "call" and c_.get("fn") == "tp_thread_get" and core.is_ref(o, name=src):
+                    return True
     return False
 
 
@@ -64,6 +75,15 @@ def self_membership_rule(rep, u):
                     if x.get("k") == "bin" and x["op"] == "=" and core.is_ref(core.strip_casts(x["x"]), name=src) and const_val(core.strip_casts(x["y"])) == 0 \
                             and fn.pos_dominates(p2, pos) and any(_mentions_membership(c, src) for b, c in _cond_blocks_dominating(fn, p2)):
                         member = True
+            if what == "skip pre-decrement":
+                # the decrement stands for the one thread the send loop will skip (`tp_thread_get(tp, i) == src`): its
+                # condition must be that very slot identity - the pool's virtual thread belongs to tp too and is never skipped
+                slot = any(_slot_identity(c, src) for b, c in conds)
+                rep.functions.add(fname)
+                (rep.proved if slot else rep.violated)(
+                    "R-SELF", fn, "skip-agrees-with-loop", "%s: the skip pre-decrement at line %s is taken exactly when the send loop will skip a slot" % (fname, ln),
+                    "slot identity test" if slot else "the condition is not `tp_thread_get(tp, n) == %s`: for the pool's virtual thread (tp_thread_get_pvt) the "
+                    "countdown is decremented although no slot is skipped - the synchronous call returns early (stack-use-after-return)" % src, ln)
             desc = "%s: the %s at line %s happens only for an originator that belongs to this pool / is the caller" % (fname, what, ln)
             inst = "self-is-member@%s#%d" % (what.split("(")[0].strip().replace(" ", "-"), n)
             if member:
@@ -197,10 +217,49 @@ def obo_sibling_rule(rep, u):
             # on the failing outcome a send with the chain proxy as callback is reachable
             resched = [p2 for p2, r2, c2, _ in fn.calls({"tpt_msg_send"}) if any(key(core.strip_casts(a)) == "tpt_msg_one_by_one_proxy_cb" for a in c2["args"])
                        and p2[0] in fn.reach_from([pos[0]])]
+            # the originator is served only when it is a target, i.e. belongs to this pool
+            for p2 in resched:
+                member = any(any(y.get("k") == "call" and y.get("fn") in ("tpt_get_tp", "tp_thread_get") and
+                                 any(("msg_data->tpt" in key(a_)) or core.is_ref(core.strip_casts(a_), name="src") for a_ in y["args"])
+                                 for y, _ in walk(cnd)) for b, cnd in _cond_blocks_dominating(fn, p2))
+                (rep.proved if member else rep.violated)("R-OBO", fn, "originator-is-target", "%s: the originator is scheduled at the end of the chain only when it belongs to this pool" % fname,
+                                                         "" if member else "no membership test: a one-by-one broadcast started from another pool also runs the callback on the "
+                                                         "originator and walks on through the originator's own pool (sent = 7 for a pool of 2)", c.get("ln"))
             desc = "%s: when the one-by-one chain cannot be started on any other thread, the targeted calling thread is scheduled itself" % fname
             (rep.proved if resched else rep.violated)("R-OBO", fn, "caller-scheduled-on-chain-failure", desc, "" if resched else
                                                       "the failure path frees the record and returns ESPIPE: with every other thread stopped the running, targeted "
                                                       "caller never gets the callback and done_cb never runs (its sibling tpt_msg_one_by_one_proxy_cb handles this)", c.get("ln"))
+    return n
+
+
+def cbsend_exit_rules(rep, u):
+    """plain-mode tail of tpt_msg_cbsend: (a) when nothing was sent (every send failed, or nobody was targeted) no worker will
+    ever count down: the record is freed and an error returned, without completion - the same outcome as the one-by-one mode;
+    (b) the sender's own count-down does not pass the declared originator as "the current thread" (a completion posted with
+    SELF_DIRECT would then run in place on whatever thread is calling)."""
+    fn = tp.need(u, "tpt_msg_cbsend")
+    rep.functions.add(fn.name)
+    ids = core.result_locals(fn, {"tpt_msg_broadcast_send__int"})
+    bc = [pos for pos, root, c, ps in fn.calls({"tpt_msg_broadcast_send__int"})]
+    if not bc or not ids:
+        raise driver.AnalysisBroken("tpt_msg_cbsend: plain-mode broadcast call not found")
+    frees = [pos for pos, root, c, ps in fn.calls({"free"}) if fn.pos_dominates(bc[0], pos)]
+    ok = False
+    for fp in frees:
+        for bid, cnd in _cond_blocks_dominating(fn, fp):
+            if fn.pos_dominates(bc[0], (bid, 0)) and any(y.get("k") == "ref" and y.get("id") in ids for y, _ in walk(cnd)):
+                ok = True
+    (rep.proved if ok else rep.violated)("R-NOTARGET", fn, "nothing-sent-exit", "tpt_msg_cbsend: when no message went out the record is freed and an error returned",
+                                         "" if ok else "no such exit: a 1-thread pool with SELF_SKIP and an explicit originator returns 0, never completes and leaks the record; "
+                                         "with every send failed the call returns ESPIPE and also completes")
+    n = 1
+    for pos, root, c, ps in fn.calls({"tpt_msg_active_thr_count_dec"}):
+        n += 1
+        a1 = core.strip_casts(c["args"][1])
+        ok2 = const_val(a1) == 0 or (a1.get("k") == "call" and a1.get("fn") == "tpt_get_current")
+        (rep.proved if ok2 else rep.violated)("R-CURTHREAD", fn, "countdown-current-thread", "tpt_msg_cbsend: the sender's count-down names the calling thread (NULL = resolve), not the originator",
+                                              key(a1) if ok2 else "passes '%s': when the sender is the last to count down, the completion is sent with src == dst, SELF_DIRECT fires and "
+                                              "done_cb runs on the calling thread instead of the originator" % key(a1), c.get("ln"))
     return n
 
 
